@@ -51,6 +51,9 @@ def grid(rnd, thorough=False):
     # laws with real probability mass below 1 (a support silently cut at 1 shows here and nowhere else)
     g += [("log_normal", (3, 2.0), "mass_below_1"), ("log_normal", (1.5, 1.3), "mass_below_1"), ("gauss", (2, 1.5), "mass_below_1"), ("uniform", (0, 3), "mass_below_1"),
           ("poisson", (0.5,), "mass_below_1"), ("poisson", (2,), "mass_below_1"), ("poisson", (7,), "mass_below_1"), ("flory_schulz", (0.6,), "mass_below_1")]
+    # special shape values: Schulz-Zimm with dispersity exactly 2 (z = 1: the factor M**(z-1) is M**0 at M = 0), z = 2, and just beside them
+    g += [("schulz_zimm", (2000, 1000), "z=1"), ("schulz_zimm", (600, 300), "z=1"), ("schulz_zimm", (2000.2, 1000.1), "z=1"), ("schulz_zimm", (2000, 1000.5), "z~1"),
+          ("schulz_zimm", (1500, 1000), "z=2")]
     for a in ([0.5, 0.2, 0.1, 0.04] if not thorough else [0.9, 0.5, 0.35, 0.2, 0.1, 0.07, 0.04, 0.01]):
         g.append(("flory_schulz", (a,), "a<=0.05" if a <= 0.05 else "a"))
     for _ in range(4 if not thorough else 40):
